@@ -62,6 +62,7 @@ struct RoundResult {
     expired_none: u64,
     concurrent_reads: u64,
     inserts: u64,
+    stale_reads: u64,
 }
 
 fn run_round(cfg: &Config, seed: u64, ops_per_thread: usize) -> Result<RoundResult, String> {
@@ -172,7 +173,7 @@ fn first_tag(v: &View) -> u32 {
 }
 
 fn check_history(cfg: &Config, evs: &[Ev]) -> RoundResult {
-    let mut res = RoundResult { violations: vec![], gets: 0, hits: 0, none_live: 0, expired_none: 0, concurrent_reads: 0, inserts: 0 };
+    let mut res = RoundResult { violations: vec![], gets: 0, hits: 0, none_live: 0, expired_none: 0, concurrent_reads: 0, inserts: 0, stale_reads: 0 };
     for key in 0..KEYS.len() {
         let qtype = KEYS[key].1;
         let mut ins: Vec<InsRec> = evs
@@ -262,14 +263,11 @@ fn check_history(cfg: &Config, evs: &[Ev]) -> RoundResult {
                     if i.ret >= e.call {
                         res.concurrent_reads += 1;
                     }
+                    // D8 (refcache.rs): the statement does not say that a later result displaces
+                    // an entry; a read of a superseded insert is counted and judged on that
+                    // insert's own insertion time and L below
                     if newest_call_before > i.ret {
-                        res.violations.push((
-                            "not_latest".into(),
-                            "mt|stale_read".into(),
-                            json!({"returned_insert": {"call": i.call, "ret": i.ret}, "overwritten_by_insert_called_at": newest_call_before, "get": {"call": e.call, "ret": e.ret}}),
-                            obs.to_json(),
-                        ));
-                        continue;
+                        res.stale_reads += 1;
                     }
                     let mut m = RefCache::new(cfg.clone(), 1);
                     m.insert_stored(0, qtype, i.view.clone(), i.now);
@@ -298,6 +296,7 @@ fn absorb(rep: &mut Reporter, r: RoundResult, cfg: &Config, seed: u64, n: usize)
     rep.add("mt_none_while_live", r.none_live);
     rep.add("mt_expired_none", r.expired_none);
     rep.add("mt_hits_concurrent_with_insert", r.concurrent_reads);
+    rep.add("mt_reads_of_superseded_insert", r.stale_reads);
     for (rule, sig, exp, obs) in r.violations {
         rep.violation(&rule, &sig, case_json(cfg, seed, n), exp, obs);
     }
